@@ -193,7 +193,7 @@ func typeName(t types.Type) string {
 	case *types.Named:
 		n := tt.Obj().Name()
 		if tt.Obj().Pkg() != nil {
-			n = tt.Obj().Pkg().Name() + "." + n
+			n = pkgKey(tt.Obj().Pkg()) + "." + n
 		}
 		if ta := tt.TypeArgs(); ta != nil && ta.Len() > 0 {
 			var as []string
@@ -249,7 +249,7 @@ func typeKey(t types.Type) string {
 			n = n.Origin()
 		}
 		if n.Obj().Pkg() != nil {
-			return n.Obj().Pkg().Name() + "." + n.Obj().Name()
+			return pkgKey(n.Obj().Pkg()) + "." + n.Obj().Name()
 		}
 		return n.Obj().Name()
 	}
